@@ -86,6 +86,17 @@ func plan(run *hx.Run) []Scenario {
 	add(Scenario{Name: "big", TreeSeed: s + 801, N: 6, Linear: true, Fresh: 200, Cache: "pruning", OrderSeed: s, SetHeadTo: -1})
 	// extended scope (informational): SetHead
 	add(Scenario{Name: "seth", TreeSeed: s + 601, N: 12, Branchy: 20, Cache: "archive", OrderSeed: s, SetHeadTo: 3})
+	if os.Getenv("C04_SETHEAD_EXTRA") != "" {
+		// evidence runs for the (optional) SetHead reordering: more rewinds, both configurations, several targets
+		for k := 0; k < 8; k++ {
+			u := uint64(k)
+			cache := "archive"
+			if k%2 == 1 {
+				cache = "pruning"
+			}
+			add(Scenario{Name: "sethX", TreeSeed: s + 610 + u, N: 12 + k, Branchy: 25, Cache: cache, OrderSeed: s + u, SetHeadTo: k % 5, Contracts: k%3 == 0})
+		}
+	}
 	// long pruning chain: periodic trie flushes above height 128, three tries at Stop
 	nlong := 136
 	if run.Thorough() {
@@ -240,6 +251,9 @@ func enumerate(run *hx.Run, sc Scenario) {
 		if v.OK {
 			tok += "+"
 			run.Count("prefix-ok")
+			if inSetHead {
+				run.Count("sethead-prefix-ok")
+			}
 		} else {
 			tok += "-"
 			if win == "" {
